@@ -99,3 +99,56 @@ theorem walk_noLink_prefix {fs : FS} {b : Nat} {cs pos T : List Name} (hT : T <+
     exact List.IsPrefix.trans hT (List.prefix_append _ _)
 
 end LA.FS
+
+namespace LA.FS
+
+/-- The same with "." components allowed (they are walked over in place). -/
+theorem walk_noLink_dots (fs : FS) (b : Nat) : ∀ (cs pos : List Name) (t : Tree), (∀ c ∈ cs, c ≠ DOTDOTN) →
+    get fs.root pos = some t → NoLinkT fs t (cs.filter (fun c => !(c == DOTN))) →
+    ∀ r, walk fs b pos cs = .ok r → r = pos ++ cs.filter (fun c => !(c == DOTN)) := by
+  intro cs
+  induction cs with
+  | nil => intro pos t _ _ _ r h; rw [walk] at h; simp at h; simp [h]
+  | cons c rest ih =>
+    intro pos t hnd hget hnl r h
+    have hc := hnd c (by simp)
+    have hnd' : ∀ x ∈ rest, x ≠ DOTDOTN := fun x hx => hnd x (by simp [hx])
+    rw [walk] at h
+    simp only [hget] at h
+    cases t with
+    | file i => simp at h
+    | dir m mt es =>
+      by_cases hdot : c = DOTN
+      · subst hdot
+        simp only [↓reduceIte] at h
+        have : (DOTN :: rest).filter (fun c => !(c == DOTN)) = rest.filter (fun c => !(c == DOTN)) := by
+          rw [List.filter_cons]; simp
+        rw [this] at hnl ⊢
+        exact ih pos _ hnd' hget hnl r h
+      · have hf : (c :: rest).filter (fun c => !(c == DOTN)) = c :: rest.filter (fun c => !(c == DOTN)) := by
+          have : (c == DOTN) = false := by simpa using hdot
+          rw [List.filter_cons]; simp [this]
+        rw [hf] at hnl ⊢
+        simp only [hdot, hc, if_false] at h
+        split at h
+        · simp at h
+        · simp only [NoLinkT] at hnl
+          split at h
+          · simp at h
+          · rename_i m' mt' es' hch
+            simp only [hch, Tree.isDir, if_true] at hnl
+            have hg : get fs.root (pos ++ [c]) = some (.dir m' mt' es') := by
+              rw [get_snoc, hget]; exact hch
+            have := ih (pos ++ [c]) _ hnd' hg hnl r h
+            simp [this]
+          · rename_i i hch
+            simp only [hch, Tree.isDir] at hnl
+            simp only [isLnk] at hnl
+            split at h
+            · rename_i tg hf2; simp [hf2] at hnl
+            · split at h
+              · rename_i hr; subst hr; simp at h; simp [h]
+              · simp at h
+            · simp at h
+
+end LA.FS
